@@ -2,7 +2,7 @@ import vlib
 
 class P(vlib.Prop):
     id = "C13"
-    watch = ("pkg/build/accounts.go", "pkg/build/paths.go", "pkg/build/build_implementation.go", "pkg/passwd/*.go", "pkg/tarfs/fs.go", "pkg/apk/fs/memfs.go", "pkg/build/oci/image.go")
+    watch = ("pkg/build/accounts.go", "pkg/build/paths.go", "pkg/build/build_implementation.go", "pkg/passwd/*.go", "pkg/tarfs/fs.go", "pkg/apk/fs/memfs.go", "pkg/build/oci/image.go", "pkg/build/types/image_configuration.go")
     rule = ("accounts stage: hand-picked corners (defaults, colliding names, uid 2^32-1, /dev/null homes, pre-existing homes of each kind, "
             "symlinked/dangling/looping homes, malformed and odd pre-existing passwd/group text, signed/oversized ids, member-less groups), then random account lists over "
             "random trees, on apkfs.NewMemFS() and tarfs.New(), through the real mutateAccounts; the repository's own ReadUserFile/ReadGroupFile are compared with the model's parsers on the initial and final files; "
